@@ -78,6 +78,82 @@ def implicit_none_paths(ctx: Ctx, f: FuncInfo) -> Optional[List[str]]:
   return []
 
 
+def _scope_chain(ctx: Ctx, f: FuncInfo):
+  out = [f]
+  q = f.qualname
+  while '.' in q:
+    q = q.rsplit('.', 1)[0]
+    g = ctx.p.funcs.get(q)
+    if g is not None:
+      out.append(g)
+  return out
+
+
+def _name_sources(ctx: Ctx, f: FuncInfo, expr, depth=0) -> Set[str]:
+  """Names of the functions whose results flow into `expr` through local /
+
+  enclosing-scope assignments, `x.update(...)`, `x |= ...` and copies.
+  """
+  out: Set[str] = set()
+  if depth > 6:
+    return out
+  for n in ast.walk(expr):
+    if isinstance(n, ast.Call):
+      out.add(unparse(n.func).rsplit('.', 1)[-1])
+    if isinstance(n, ast.Name) and isinstance(n.ctx, ast.Load):
+      for g in _scope_chain(ctx, f):
+        hit = False
+        for s in walk_function(g.node):
+          if isinstance(s, ast.Assign) and any(
+              isinstance(t, ast.Name) and t.id == n.id for t in s.targets):
+            out |= _name_sources(ctx, g, s.value, depth + 1)
+            hit = True
+          elif isinstance(s, ast.AugAssign) and isinstance(
+              s.target, ast.Name) and s.target.id == n.id:
+            out |= _name_sources(ctx, g, s.value, depth + 1)
+          elif isinstance(s, ast.Call) and isinstance(
+              s.func, ast.Attribute) and s.func.attr in (
+                  'update', 'add', 'extend') and isinstance(
+                      s.func.value, ast.Name) and s.func.value.id == n.id:
+            for a in s.args:
+              out |= _name_sources(ctx, g, a, depth + 1)
+        if hit:
+          break
+  return out
+
+
+def _expr_sources_text(f: FuncInfo, expr, depth=0) -> str:
+  """Text of `expr` with locals expanded to what they were assigned."""
+  parts = [unparse(expr)]
+  if depth < 4:
+    for n in ast.walk(expr):
+      if isinstance(n, ast.Name):
+        for s in walk_function(f.node):
+          if isinstance(s, ast.Assign) and any(
+              isinstance(t, ast.Name) and t.id == n.id for t in s.targets):
+            parts.append(_expr_sources_text(f, s.value, depth + 1))
+  return ' '.join(parts)
+
+
+def _is_module_expr(ctx: Ctx, f: FuncInfo, e) -> bool:
+  """`e` is known to be a module object."""
+  if isinstance(e, ast.Call) and unparse(e.func) == 'inspect.getmodule':
+    return True
+  if isinstance(e, ast.Name):
+    defs = [s.value for s in walk_function(f.node) if isinstance(s, ast.Assign)
+            and any(isinstance(t, ast.Name) and t.id == e.id
+                    for t in s.targets)]
+    if defs:
+      return all(_is_module_expr(ctx, f, d) for d in defs)
+    if f.params and e.id == f.params[0]:
+      # converter registered for module objects only
+      for d in f.decorators:
+        if isinstance(d, ast.Call) and d.args and 'ModuleType' in unparse(
+            d.args[0]) and 'isinstance' in unparse(d.args[0]):
+          return True
+  return False
+
+
 def run(ctx: Ctx, rs: RuleSet, tier: str):
   p = ctx.p
   # ---- LIT
@@ -285,6 +361,65 @@ def run(ctx: Ctx, rs: RuleSet, tier: str):
              'the identifier was obtained from the namer / namespace' if ok
              else f'`{unparse(c)}`: the generated name does not come from the '
              'namespace allocator and may collide', ctx.loc(f, c))
+
+  # ---- names in scope: the allocator knows the function's own names
+  rule = 'WMC.namer-scope'
+  rs.declare(rule, 'a Namer that issues variable names for a fixture function '
+             'is built on the task-level names and that function\'s '
+             'parameters / variables', 3)
+  for modname in sorted(ctx.p.modules):
+    if not modname.startswith(AC + '.'):
+      continue
+    for f in ctx.mod(modname).all_funcs:
+      for c in ctx.calls(f):
+        if not (isinstance(c.func, ast.Name) and c.func.id == 'make_namer' and
+                len(c.args) == 1):
+          continue
+        a = c.args[0]
+        if not (isinstance(a, ast.Call) and unparse(a.func).endswith(
+            'Namespace') and len(a.args) == 1):
+          rs.fail(rule, f'{f.qualname}:make_namer',
+                  f'`{unparse(c)[:70]}`: the namespace is not seeded with '
+                  'the names already in scope', ctx.loc(f, c))
+          continue
+        srcs = _name_sources(ctx, f, a.args[0])
+        need = {'get_task_existing_names', 'get_fn_existing_names'}
+        missing = sorted(need - srcs)
+        rs.check(not missing, rule, f'{f.qualname}:make_namer',
+                 f'`{unparse(a)[:60]}` is seeded from {sorted(srcs & need)}'
+                 if not missing else
+                 f'`{unparse(a)[:60]}` is not seeded from {missing}: a new '
+                 'variable can take the name of a parameter or variable of '
+                 'the function it is declared in and shadow it (the emitted '
+                 'module runs but yields a different configuration)',
+                 ctx.loc(f, c))
+
+  # ---- references to classes / functions use the qualified name
+  rule = 'LIT.qualified-reference'
+  rs.declare(rule, 'source references to importable objects are built from '
+             '__qualname__; __name__ is read of modules only', 3)
+  for modname in (f'{CG}.import_manager', PV):
+    for f in ctx.mod(modname).all_funcs:
+      if f.is_lambda:
+        continue
+      for n in walk_function(f.node):
+        if isinstance(n, ast.Attribute) and n.attr == '__name__' and isinstance(
+            n.ctx, ast.Load):
+          ok = _is_module_expr(ctx, f, n.value)
+          rs.check(ok, rule, f'{f.qualname}:`{unparse(n)[:50]}`',
+                   'the name of a module' if ok else
+                   f'`{unparse(n)}` is used to build a source reference: '
+                   'for a class or function nested in another class '
+                   '__name__ is not its access path (__qualname__ is), so the '
+                   'emitted expression names a different object or none',
+                   ctx.loc(f, n))
+  add = ctx.func(f'{CG}.import_manager.ImportManager.add')
+  rets = [r for r in walk_function(add.node) if isinstance(r, ast.Return)]
+  srcs_ok = bool(rets) and all(
+      '__qualname__' in _expr_sources_text(add, r.value) for r in rets)
+  rs.check(srcs_ok, rule, f'{add.qualname}:returns',
+           'every returned reference is derived from __qualname__',
+           ctx.loc(add, add.node))
 
   # ---- KD
   c14.kd_rule(ctx, rs, 'KD.converter-keys', [
